@@ -18,7 +18,7 @@ case "$ID" in
 esac
 SEED="${VERIF_SEED:-20260926}"
 RUNS="${VERIF_FUZZ_RUNS:-300000}"
-case "$T" in c13_extract|c17_history) RUNS=$((RUNS / 3));; esac   # slower per execution (many container x k-mer-width checks per case)
+case "$T" in c13_extract|c17_history) RUNS=$((RUNS / 3));; c15_views) RUNS=$((RUNS / 5));; esac   # slower per execution (many container x k-mer-width checks per case)
 PROCS="${VERIF_FUZZ_PROCS:-8}"
 export CARGO_NET_OFFLINE=true
 cd "$ROOT/harness" || exit 2
